@@ -39,6 +39,14 @@ impl Profile for ProxyTwin {
             let e = *rng.pick(&pool);
             codes.push(Code { cid: e.spec.cid.to_string(), flavour: FLAVOUR_PROXY });
             codes1.push(Code { cid: e.spec.cid.to_string(), flavour: 0 });
+            // another instantiation of the same generic program likes to be stored next to it
+            let base = e.spec.cid.split('@').next().unwrap_or("");
+            if let Some(sib) = pool.iter().find(|o| o.spec.cid != e.spec.cid && o.spec.cid.split('@').next() == Some(base)) {
+                if rng.chance(1, 2) {
+                    codes.push(Code { cid: sib.spec.cid.to_string(), flavour: FLAVOUR_PROXY });
+                    codes1.push(Code { cid: sib.spec.cid.to_string(), flavour: 0 });
+                }
+            }
         }
         let accounts = std_accounts(rng);
         let addrs: Vec<String> = accounts.iter().map(|(n, _)| account_addr(n).to_string()).collect();
@@ -94,7 +102,8 @@ impl Profile for ProxyTwin {
                 16 => Kind::Migrate,
                 17 | 18 => Kind::Instantiate,
                 _ => {
-                    ops.push(Op::Block { dh: rng.range(1, 100), dt: rng.range(1, 10_000) });
+                    // (now and then only the time moves)
+                    ops.push(Op::Block { dh: if rng.chance(1, 3) { 0 } else { rng.range(1, 100) }, dt: rng.range(1, 10_000) });
                     // ask the very same question again after the clock moved
                     if let Some(q) = ops.iter().rev().find(|o| matches!(o, Op::Twin(t) if t.hid.starts_with("query:"))).cloned() {
                         if rng.chance(2, 3) {
@@ -137,7 +146,7 @@ impl Profile for ProxyTwin {
                     },
                     label: match rng.below(8) { 0 | 1 => None, 2 => Some(String::new()), 3 => Some(format!(" lbl{}\t", sg.nonce())), 4 => Some(rng.pick(&[" ", "  lead", "trail  ", "in side"]).to_string()), _ => Some(format!("lbl{}", sg.nonce())) },
                     admin: match rng.below(6) { 0 | 1 | 2 => Some(rng.pick(accounts).clone()), 3 => Some(String::new()), _ => None },
-                    salt: if rng.chance(1, 3) { let n = rng.range(1, 8) as usize; Some(Doc(rng.bytes(n))) } else { None },
+                    salt: if rng.chance(1, 3) { let n = rng.range(0, 8) as usize; Some(Doc(rng.bytes(n))) } else { None },
                 }));
                 n_contracts += 0; // new instances are not targeted by later ops of this plan
                 continue;
